@@ -33,7 +33,7 @@ def gen_line_world(rng):
     f, t = wg.gen_line_feature(rng, ctx, ftype, 0, 2, {'sections': rng.random() < 0.3, 'segment_models': False, 'p_temperature': 1.0, 'p_composition': 1.0, 'p_grains': 0.3, 'p_velocity': 0.3,
                                                         'allow_temperature': ['uniform', 'linear', 'adiabatic', 'plate model'], 'max_bend': 40.0}, where)
     # make the bounds tight
-    style = rng.choice(['deep-start', 'shallow-dip', 'steep', 'negative-truncation', 'plain', 'short-thick'])
+    style = rng.choice(['deep-start', 'shallow-dip', 'steep', 'negative-truncation', 'plain', 'short-thick', 'widening'])
     segs = f['segments']
     if style == 'deep-start':
         f['min depth'] = wg.num(rng, 1e5, 4e5)
@@ -54,6 +54,16 @@ def gen_line_world(rng):
         a = rng.uniform(60, 120)
         for s in segs:
             s['length'] = wg.R(th * rng.uniform(0.2, 0.7) / len(segs))
+            s['angle'] = [wg.R(a)]
+        f.pop('sections', None)
+    elif style == 'widening':
+        # thin at the top, thick at the bottom end of every segment, and short: the far part of the body lies beyond
+        # length + (thickness at the top), so the bounds must use the largest thickness of either end
+        th = max(max(s['thickness']) for s in segs) * rng.uniform(1.0, 2.5)
+        a = rng.uniform(45, 135)
+        for s in segs:
+            s['thickness'] = [wg.R(th * rng.uniform(0.03, 0.2)), wg.R(th)]
+            s['length'] = wg.R(th * rng.uniform(0.1, 0.45) / len(segs))
             s['angle'] = [wg.R(a)]
         f.pop('sections', None)
     elif style == 'negative-truncation' and ftype == 'subducting plate':
@@ -92,7 +102,7 @@ def gen_line_world(rng):
     pts = []
     for _ in range(150):
         r = rng.random()
-        if r < (0.4 if style in ('negative-truncation', 'short-thick') else 0.15):
+        if r < (0.4 if style in ('negative-truncation', 'short-thick', 'widening') else 0.15):
             # near the tip of the slab (its underside reaches furthest from the trench): straight-dip estimate in the local frame
             tr = t2['trench']
             k = rng.randrange(len(tr) - 1)
@@ -106,6 +116,8 @@ def gen_line_world(rng):
             th = math.radians(segs[0]['angle'][0])
             ss = rng.uniform(0.8, 1.02) * maxlen
             nn = rng.uniform(-0.1, 1.05) * maxth * (0.5 if ftype == 'fault' else 1.0)
+            if ftype == 'fault' and rng.random() < 0.5:
+                nn = -nn          # a fault extends to both sides of its plane
             if style == 'negative-truncation' and ftype == 'subducting plate':
                 # the region above the slab top that the truncation admits, mostly close to its upper limit
                 tmin = min(min(sg.get('top truncation', [0.0])) for sg in segs)
@@ -203,7 +215,7 @@ def main(tier, seed, replay):
     V = core.Verdict(PID, tier, seed)
     V.coverage['rule'] = ('per file two worlds in one process: normal and built without shortcuts (hooks: slab/fault bounding box and depth cut-off removed, min/max pre-test of variable depth surfaces removed, '
                           'nearest-triangle search replaced by a full scan); same queries to both; bit equality of every value (1e-12 relative for depth-surface lookups on shared triangle edges); generators biased '
-                          'to tight bounds (deep starts, shallow and steep dips, negative truncations, high latitudes, dateline) and to points around the buffered box and the cut-off depth; '
+                          'to tight bounds (deep starts, shallow and steep dips, negative truncations, bodies widening down dip, high latitudes, dateline) and to points around the buffered box and the cut-off depth; '
                           'non-trivial = points that the world without shortcuts reports inside the feature')
     n_line, n_area = (150, 80) if tier == 'quick' else (4500, 2400)
     jobs = []
